@@ -766,6 +766,11 @@ class Message:
             and all(x and int(x) <= 255 for x in parsed.hostname.split("."))
         )
 
+        # Like path and query, these are not left over from an earlier URI of
+        # this message (eg. of the message this one is a copy(uri=...) of)
+        self.opt.proxy_uri = None
+        self.opt.uri_host = None
+
         if set_uri_host and not is_ip_literal:
             try:
                 self.opt.uri_host = urllib.parse.unquote(
